@@ -598,3 +598,42 @@ pub fn run_replay(path: &str) -> i32 {
         }
     }
 }
+
+
+/// Determinism self-check: every run index executed in two separate sets of processes
+/// (one worker, then many); the per-run digests must agree.
+pub fn run_selfcheck(props: &[String], runs: u64, seed: u64) -> i32 {
+    std::env::set_var("VERIF_PER_RUN", "1");
+    let mut bad = 0;
+    for prop in props {
+        let a = sweep(prop, Tier::Quick, seed, runs, 1);
+        let b = sweep(prop, Tier::Quick, seed, runs, n_workers());
+        if a.harness_error.is_some() || b.harness_error.is_some() {
+            eprintln!("harness error in selfcheck of {prop}: {:?} {:?}", a.harness_error, b.harness_error);
+            return 2;
+        }
+        let ma: BTreeMap<u64, u64> = a.agg.per_run.iter().copied().collect();
+        let mb: BTreeMap<u64, u64> = b.agg.per_run.iter().copied().collect();
+        let mut diverged: Vec<u64> = ma.iter().filter(|(k, v)| mb.get(k).map(|w| w != *v).unwrap_or(false)).map(|(k, _)| *k).collect();
+        diverged.sort_unstable();
+        let within = a.agg.replays_diverged + b.agg.replays_diverged;
+        println!(
+            "selfcheck {prop}: {} runs twice (1 worker vs {} workers): {} diverged across processes, {} diverged within a process; sweep digests {:016x} / {:016x}",
+            ma.len(),
+            n_workers(),
+            diverged.len(),
+            within,
+            a.agg.digest,
+            b.agg.digest
+        );
+        if !diverged.is_empty() {
+            println!("  first diverging run indices: {:?}", &diverged[..diverged.len().min(12)]);
+            bad += 1;
+        }
+        if within > 0 {
+            bad += 1;
+        }
+    }
+    crate::fsbox::cleanup_root();
+    i32::from(bad > 0) * 2
+}
